@@ -961,6 +961,8 @@ class OpaqueText:
         self.items = items
 
     def _pyvc_getattr(self, it, name):
+        if name in ('rstrip', 'lstrip', 'strip', 'upper', 'lower'):
+            return Builtin('text.' + name, lambda *a: OpaqueText(self.enc, self.items))
         raise Unsupported('operation %s on opaque decoded text' % name)
 
 
@@ -1316,9 +1318,32 @@ def b_ord(it, c):
     return ord(c)
 
 
+class SymRange:
+    """range(start, stop) with a symbolic stop: iterated lazily, forking on 'k < stop' at every step.  Terminates only if the loop
+    body bounds the count (e.g. by running out of buffer); otherwise the unroll bound makes the unit undecided."""
+
+    def __init__(self, start, stop):
+        self.start, self.stop = start, stop
+
+    def _pyvc_iter(self, it):
+        k = self.start
+        n = 0
+        while it.branch(sx.lift_int(k) < self.stop):
+            yield k
+            k = k + 1
+            n += 1
+            if n > it.max_unroll:
+                from .interp import Incomplete
+                raise Incomplete('range with a symbolic bound did not terminate within the unroll bound')
+
+
 def b_range(it, *a):
     if any(is_sym(x) for x in a):
-        raise Unsupported('range with symbolic bound (needs a loop invariant)')
+        if len(a) == 1:
+            return SymRange(0, a[0])
+        if len(a) == 2 and not is_sym(a[0]):
+            return SymRange(a[0], a[1])
+        raise Unsupported('range with symbolic start/step')
     return range(*a)
 
 
@@ -1369,6 +1394,9 @@ def b_all(it, xs):
 
 
 def b_str(it, x=''):
+    if isinstance(x, Obj) and x.cls.is_subclass(it.loader.builtin_classes['BaseException']):
+        a = x.fields.get('args', ())
+        return str(a[0]) if a and isinstance(a[0], str) else '<exception message>'
     if is_sym(x) or isinstance(x, (SBytes, Obj)):
         if isinstance(x, SStr):
             return x
